@@ -169,7 +169,10 @@ def run_env(chk, rng, n):
         if md is None: return 'None'
         if md == []: return 'Some [mkMed true false]'
         return 'Some %s' % coq_list(['mkMed false %s' % ('true' if x.get('nradials') else 'false') for x in md])
-    rc, out = coq_eval('env_%d' % os.getpid(), ENV_HEADER + 'Eval vm_compute in map env_report %s.\n' % coq_list([coq_media(c['media']) for c in cases]))
+    def coq_circ(md):
+        # the boundary the user asked for, or the circular one a radial screen forces
+        return 'true' if md and (md[0].get('boundary') == 'circular' or md[0].get('nradials')) else 'false'
+    rc, out = coq_eval('env_%d' % os.getpid(), ENV_HEADER + 'Eval vm_compute in map (fun cm => env_report (fst cm) (snd cm)) %s.\n' % coq_list(['(%s, %s)' % (coq_circ(c['media']), coq_media(c['media'])) for c in cases]))
     m = re.search(r'(?s)=\s*(\[.*\])\s*:\s*list \(list nat\)', out)
     if rc != 0 or not m:
         chk.tie_broken('correspondence', 'env', 'model evaluation failed: ' + out[-600:]); return
@@ -188,6 +191,11 @@ def run_env(chk, rng, n):
             nbad += 1
             chk.tie_broken('correspondence', 'env', 'environment block of %d media has the lines %r, the model %r' % (nm, rr['kinds'], row))
             # the disagreement is itself a failing input when the model's theorem is what the property asks: heights / interfaces
+            want_b = [22 if coq_circ(c['media']) == 'true' else 21] if nm > 1 else []
+            if [k for k in rr['kinds'] if k in (21, 22, 2)] != want_b:
+                chk.violation(dict(stage='env', what='boundary type'), 'the report of %d media with boundary %r%s prints the boundary lines %r' % (
+                              nm, c['media'][0].get('boundary'), ' and a radial screen' if c['media'][0].get('nradials') else '', [k - 20 for k in rr['kinds'] if k in (21, 22)]),
+                              dict(f=10.0, wires=[gen.wire(4, [0, 0, 1.0], [0, 0, 3.0], 0.001)], media=c['media'], family='env', tagmode='none', sources=[], loads=[]))
             if rr['kinds'].count(7) != max(nm - 1, 0) or rr['kinds'].count(6) != max(nm - 1, 0):
                 chk.violation(dict(stage='env', what='environment block'), 'the report of %d media prints %d HEIGHT and %d interface lines (%d of each are due): kinds %r'
                               % (nm, rr['kinds'].count(7), rr['kinds'].count(6), max(nm - 1, 0), rr['kinds']),
